@@ -204,7 +204,7 @@ def generate(tier, seed):
                 if d.lower() and d.upper():
                     # symbolic bounds: float mul/add monotonicity over (lo, hi, t) does not finish in 150 s -> concrete bound pairs, symbolic bytes
                     hsrc = ""
-                    pairs = TWO_SIDED_PAIRS if tier == "thorough" else TWO_SIDED_PAIRS[:4]
+                    pairs = TWO_SIDED_PAIRS if tier == "thorough" else TWO_SIDED_PAIRS[:5]   # (1.0, 2.0): lower + t*(upper-lower) rounds up to upper for t just below 1
                     for pi, (a_, b_) in enumerate(pairs):
                         d.fixed_bounds = (a_, b_)
                         hsrc += float_harness(d, "%s_p%d" % (hn, pi), "fixed")
@@ -228,7 +228,8 @@ def generate(tier, seed):
                 d = NumDecl(ty, v, derive=["Debug", "Arbitrary"], modname="%s_%s_%s" % (ty, "_".join(v), region))
                 hn = "c09_float_%s_finding" % d.modname()
                 hsrc = float_harness(d, hn, region)
-                plan.add(H(hn, "finding", dict(d.describe(), region=region), finding=key))
+                plan.add(H(hn, "finding", dict(d.describe(), region=region), finding=key,
+                           finding_check="Arbitrary generated an invalid value"))   # the generated panic; an INVALID VALUE RETURNED is another matter
                 src.append("pub mod %s {\n    use super::*;\n    use nutype::nutype;\n    %s\n    %s\n%s\n%s}\n" % (d.modname(), USE, d.prelude(), indent(d.attr()), hsrc))
     src.append(strprops.gen_c09(plan, tier, rng))
     src.append(OTHER)
